@@ -945,6 +945,7 @@ Proof.
   - destruct a; try exact H; apply fresh_inv; try assumption; intros t E.
     + eapply rect_concat; eassumption.
     + destruct (c_of_record (dict_of rc)); cbn [bind] in E; [eapply rect_concat; eassumption|discriminate].
+    + destruct (c_new_records (map (@dict_of cell) rs)); cbn [bind] in E; [eapply rect_concat; eassumption|discriminate].
   - inversion E; subst. apply RD. assumption.
   - destruct (Z.eqb s0 0); [discriminate|]. eapply rect_ints; [apply RD; assumption|eassumption].
 Qed.
@@ -983,6 +984,9 @@ Proof.
     + rewrite ref_of_record. destruct (c_of_record (dict_of rc)) as [t2|e] eqn:E; cbn [rmap bind]; [|reflexivity].
       change [abs (rd cops s r); abs t2] with (map abs [rd cops s r; t2]). apply ref_concat. constructor; [apply RD; assumption|]. constructor; [|constructor].
       eapply rect_of_record; [apply NoDup_dict_of|eassumption].
+    + rewrite ref_new_records. destruct (c_new_records (map (@dict_of cell) rs)) as [t2|e] eqn:E; cbn [rmap bind]; [|reflexivity].
+      change [abs (rd cops s r); abs t2] with (map abs [rd cops s r; t2]). apply ref_concat. constructor; [apply RD; assumption|]. constructor; [|constructor].
+      eapply rect_new_records; [apply Forall_dict_of_nodup|eassumption].
   - reflexivity.
   - destruct (Z.eqb s0 0); [reflexivity|]. apply ref_ints. apply RD. assumption.
 Qed.
